@@ -1,10 +1,450 @@
 //! C10 — the formatter preserves meaning and comments and is idempotent.
-//! Part 1 (correspondence): `CommentIter` forward/reverse vs the Lean model.
-//! Part 2 (oracle): the property statement evaluated on the real `format_expr`.
+//! Part 1 (correspondence): `CommentIter` forward/reverse vs the Lean model (c10/corr.rs).
+//! Part 2 (oracle): the property statement evaluated on the real `format_expr` (c10/oracle.rs)
+//!   over generated programs (c10/gen.rs) with comments inserted into every token gap, CRLF,
+//!   whitespace perturbation, and over every .glu file of /repo/std and /repo/examples.
 #[path = "c10/corr.rs"]
 mod corr;
+#[path = "c10/gen.rs"]
+mod gen;
+#[path = "c10/lex.rs"]
+mod lex;
+#[path = "c10/oracle.rs"]
+mod oracle;
 
+use gluon::RootedThread;
 use gv::{Args, Out};
+use lex::{Tok, K};
+use oracle::{Failure, Verdict};
+use serde_json::json;
+
+/// Column (in chars) of byte offset `at`.
+fn col_of(src: &str, at: usize) -> usize {
+    let line_start = src[..at].rfind('\n').map_or(0, |i| i + 1);
+    src[line_start..at].chars().count()
+}
+
+#[derive(Clone, Debug)]
+struct Ins {
+    gap: usize,
+    style: u8,
+    text: String,
+}
+
+/// The comment text for (style, tag).
+fn comment_text(style: u8, tag: &str) -> String {
+    match style {
+        0 | 1 | 4 => format!("/* {} */", tag),
+        _ => format!("// {}", tag),
+    }
+}
+
+/// Insert comments into token gaps; `gap == i` is the gap before `toks[i]`, `toks.len()` the
+/// gap after the last token. Columns of the following token are preserved where the comment
+/// forces a line break, so that the layout algorithm sees the same indentation.
+fn apply(src: &str, toks: &[Tok], ins: &[Ins]) -> String {
+    let mut ins: Vec<Ins> = ins.to_vec();
+    ins.sort_by_key(|i| i.gap);
+    let mut out = String::new();
+    let mut k = 0;
+    for gi in 0..=toks.len() {
+        let gstart = if gi == 0 { 0 } else { toks[gi - 1].end };
+        let gend = if gi == toks.len() { src.len() } else { toks[gi].start };
+        let gap = &src[gstart..gend];
+        let mut here: Vec<&Ins> = vec![];
+        while k < ins.len() && ins[k].gap == gi {
+            here.push(&ins[k]);
+            k += 1;
+        }
+        if here.is_empty() {
+            out.push_str(gap);
+        } else {
+            let col = if gi == toks.len() { 0 } else { col_of(src, toks[gi].start) };
+            let ind = " ".repeat(col);
+            let has_nl = gap.contains('\n');
+            let eof = gi == toks.len();
+            let bof = gi == 0;
+            // split the gap at its last newline: `head` (up to and incl. it) and `tail` (indentation)
+            let (head, tail) = match gap.rfind('\n') {
+                Some(i) => (&gap[..=i], &gap[i + 1..]),
+                None => ("", gap),
+            };
+            let mut before = String::new(); // goes right after the previous token
+            let mut own = String::new(); // own lines before the next token
+            let mut inline = String::new(); // on the next token's line
+            let mut force_break = false;
+            for i in &here {
+                match i.style {
+                    0 => {
+                        inline.push_str(&i.text);
+                        inline.push(' ');
+                    }
+                    1 => {
+                        before.push(' ');
+                        before.push_str(&i.text);
+                    }
+                    2 => {
+                        before.push(' ');
+                        before.push_str(&i.text);
+                        force_break = true;
+                    }
+                    _ => {
+                        own.push_str(if has_nl { tail } else { &ind });
+                        own.push_str(&i.text);
+                        own.push('\n');
+                    }
+                }
+            }
+            if bof {
+                // nothing before: comments start the file
+                out.push_str(before.trim_start());
+                if force_break || (!before.is_empty() && !own.is_empty()) {
+                    out.push('\n');
+                } else if !before.is_empty() {
+                    out.push(' ');
+                }
+                out.push_str(head);
+                out.push_str(&own);
+                out.push_str(tail);
+                out.push_str(&inline);
+            } else if eof {
+                out.push_str(&before);
+                if !own.is_empty() || force_break {
+                    out.push('\n');
+                }
+                out.push_str(own.trim_end_matches('\n'));
+                if !inline.is_empty() {
+                    out.push(' ');
+                    out.push_str(inline.trim_end());
+                }
+                out.push_str(gap);
+                if !out.ends_with('\n') {
+                    out.push('\n');
+                }
+            } else {
+                out.push_str(&before);
+                if has_nl {
+                    out.push_str(head);
+                    out.push_str(&own);
+                    out.push_str(tail);
+                } else if force_break || !own.is_empty() {
+                    out.push('\n');
+                    out.push_str(&own);
+                    out.push_str(&ind);
+                } else {
+                    out.push_str(gap);
+                    if gap.is_empty() && !before.is_empty() {
+                        out.push(' ');
+                    }
+                }
+                out.push_str(&inline);
+            }
+        }
+        if gi < toks.len() {
+            out.push_str(toks[gi].text(src));
+        }
+    }
+    out
+}
+
+/// Class of a token gap for fingerprints: the classes of the two neighbouring tokens
+/// (keywords and punctuation by their text; `id`, `Ctor`, `lit`, `op`, `cmt`, `doc`, `attr`
+/// otherwise). This identifies (construct, gap position) closely enough — `with~|` is "match,
+/// before the first alternative", `{~id` "record, before the first field" — and keeps the
+/// number of distinct fingerprints bounded by the grammar, independent of the input.
+fn gap_class(src: &str, toks: &[Tok], gi: usize) -> String {
+    let prev = if gi == 0 { "BOF".to_string() } else { lex::class(&toks[gi - 1], src) };
+    let next = if gi >= toks.len() { "EOF".to_string() } else { lex::class(&toks[gi], src) };
+    format!("{}~{}", prev, next)
+}
+
+struct Runner<'a> {
+    vm: RootedThread,
+    out: &'a mut Out,
+    /// per fingerprint: (number of failures seen, length of the shortest input written)
+    seen: std::collections::HashMap<String, (u64, usize)>,
+}
+
+impl<'a> Runner<'a> {
+    /// Check one text; `origin` describes how it was produced; `ins` the inserted comments (for
+    /// attribution). Returns true if the input was inside the precondition.
+    fn run(&mut self, origin: &str, base: &str, toks: &[Tok], ins: &[Ins], crlf: bool) -> bool {
+        self.run2(origin, base, toks, ins, crlf).0
+    }
+
+    /// (input inside the precondition, property held)
+    fn run2(&mut self, origin: &str, base: &str, toks: &[Tok], ins: &[Ins], crlf: bool) -> (bool, bool) {
+        let mut text = if ins.is_empty() { base.to_string() } else { apply(base, toks, ins) };
+        if crlf {
+            text = text.replace("\r\n", "\n").replace('\n', "\r\n");
+        }
+        self.out.count("oracle:inputs");
+        match oracle::check(&self.vm, &text) {
+            Verdict::Skip(why) => {
+                self.out.count(&format!("oracle:skip:{}", why));
+                (false, false)
+            }
+            Verdict::Pass => {
+                self.out.count("oracle:pass");
+                self.out.count(&format!("oracle:pass:{}", origin));
+                if !ins.is_empty() {
+                    for i in ins {
+                        self.out.class(format!("pass:{}:{}", gap_class(base, toks, i.gap), style_name(i.style)));
+                    }
+                }
+                (true, true)
+            }
+            Verdict::Fail(f) => {
+                self.report(origin, base, toks, ins, crlf, &text, f);
+                (true, false)
+            }
+        }
+    }
+
+    fn same_kind(&self, text: &str, kind: &str) -> Option<Failure> {
+        match oracle::check(&self.vm, text) {
+            Verdict::Fail(f) if f.kind == kind => Some(f),
+            _ => None,
+        }
+    }
+
+    fn report(&mut self, origin: &str, base: &str, toks: &[Tok], ins: &[Ins], crlf: bool, text: &str, f: Failure) {
+        // attribute to a minimal set of inserted comments
+        let mut f = f;
+        let mut text = text.to_string();
+        let mut set: Vec<Ins> = ins.to_vec();
+        let mk = |set: &[Ins]| {
+            let mut t = if set.is_empty() { base.to_string() } else { apply(base, toks, set) };
+            if crlf {
+                t = t.replace("\r\n", "\n").replace('\n', "\r\n");
+            }
+            t
+        };
+        if set.len() > 1 {
+            let mut i = 0;
+            while i < set.len() && set.len() > 1 {
+                let mut trial = set.clone();
+                trial.remove(i);
+                let t = mk(&trial);
+                if let Some(f2) = self.same_kind(&t, &f.kind) {
+                    set = trial;
+                    f = f2;
+                    text = t;
+                } else {
+                    i += 1;
+                }
+            }
+        }
+        // does the failure need the comments at all?
+        if !set.is_empty() {
+            let t = mk(&[]);
+            if let Some(f2) = self.same_kind(&t, &f.kind) {
+                set.clear();
+                f = f2;
+                text = t;
+            }
+        }
+        // does it need CRLF?
+        let mut crlf_needed = false;
+        if crlf {
+            let t = text.replace("\r\n", "\n");
+            if let Some(f2) = self.same_kind(&t, &f.kind) {
+                f = f2;
+                text = t;
+            } else {
+                crlf_needed = true;
+            }
+        }
+        let mut where_: Vec<String> = if f.kind.starts_with("comment-") && f.comment.is_some() && !set.is_empty() {
+            // the gap of the comment concerned
+            let c = f.comment.clone().unwrap();
+            let hit: Vec<&Ins> = set.iter().filter(|i| i.text == c).collect();
+            if hit.is_empty() {
+                set.iter().map(|i| gap_class(base, toks, i.gap)).collect()
+            } else {
+                hit.iter().map(|i| gap_class(base, toks, i.gap)).collect()
+            }
+        } else {
+            set.iter().map(|i| gap_class(base, toks, i.gap)).collect()
+        };
+        where_.sort();
+        where_.dedup();
+        let place = if where_.is_empty() {
+            format!("{}:{}", origin_class(origin), failure_tag(&f))
+        } else {
+            where_.join("+")
+        };
+        let fp = format!("{}{}:{}", f.kind, if crlf_needed { ":crlf" } else { "" }, place);
+        self.out.count(&format!("oracle:fail:{}", f.kind));
+        self.out.class(format!("fail:{}", fp));
+        let what = format!(
+            "{}: {} | input {:?}{}",
+            f.kind,
+            f.detail.chars().take(240).collect::<String>(),
+            text.chars().take(200).collect::<String>(),
+            match &f.formatted {
+                Some(o) => format!(" -> output {:?}", o.chars().take(200).collect::<String>()),
+                None => String::new(),
+            }
+        );
+        // every failure is counted; the failing input itself is written for the first two
+        // failures of a fingerprint and whenever it is shorter than all earlier ones
+        let e = self.seen.entry(fp.clone()).or_insert((0, usize::MAX));
+        e.0 += 1;
+        if e.0 <= 2 || text.len() < e.1 {
+            e.1 = e.1.min(text.len());
+            self.out.oracle_fail(&fp, &what, json!({"src": text, "origin": origin}));
+        } else {
+            self.out.count("oracle:fail-not-written(same-fingerprint)");
+        }
+    }
+}
+
+/// A short construct-specific descriptor of a failure that is not tied to an inserted comment.
+fn failure_tag(f: &Failure) -> String {
+    let ident_before = |s: &str| -> String {
+        // the last identifier-like word of `s`
+        let t: String = s.chars().rev().skip_while(|c| !c.is_alphabetic()).take_while(|c| c.is_alphanumeric() || *c == '_').collect();
+        t.chars().rev().collect()
+    };
+    match f.kind.as_str() {
+        "output-does-not-parse" | "refused" => {
+            match f.detail.find("Unexpected token: ") {
+                Some(i) => {
+                    let w: String = f.detail[i + 18..].chars().take_while(|c| c.is_alphanumeric()).collect();
+                    format!("unexpected-{}", w)
+                }
+                None => {
+                    if f.detail.contains("Unexpected end of file") { "unexpected-eof".into() } else { "other".into() }
+                }
+            }
+        }
+        "ast-changed" => {
+            // detail = "…<a> ≠ …<b>": both excerpts start 60 chars before the first difference
+            let mut it = f.detail.split(" ≠ …");
+            let a = it.next().unwrap_or("");
+            let b = it.next().unwrap_or("");
+            let n = a.chars().zip(b.chars()).take_while(|(x, y)| x == y).count();
+            let pa: String = a.chars().take(n).collect();
+            // the last capitalised word (an AST constructor / field type) of the common part
+            let mut last = String::new();
+            let mut cur = String::new();
+            for c in pa.chars() {
+                if c.is_alphanumeric() || c == '_' {
+                    cur.push(c);
+                } else {
+                    if cur.chars().next().map_or(false, |c| c.is_uppercase()) && cur != "Spanned" && cur != "Some" && cur != "None" {
+                        last = cur.clone();
+                    }
+                    cur.clear();
+                }
+            }
+            let _ = &ident_before;
+            if last.is_empty() { "root".into() } else { last }
+        }
+        _ => "x".into(),
+    }
+}
+
+/// Class of an input that fails without any inserted comment being responsible.
+fn origin_class(origin: &str) -> String {
+    // "file:<path>[#mode]" -> "file[#mode]"; generated origins are already classes
+    if let Some(rest) = origin.strip_prefix("file:") {
+        match rest.find('#') {
+            Some(i) => format!("file{}", &rest[i..]),
+            None => "file".to_string(),
+        }
+    } else {
+        origin.to_string()
+    }
+}
+
+#[allow(dead_code)]
+fn style_name(s: u8) -> &'static str {
+    match s {
+        0 => "block-inline",
+        1 => "block-after-prev",
+        2 => "line-trailing",
+        3 => "line-own",
+        _ => "block-own",
+    }
+}
+
+/// Whitespace perturbation of a text at its token gaps.
+fn perturb_ws(rng: &mut gv::rng::Rng, src: &str, toks: &[Tok], mode: u8) -> String {
+    let mut out = String::new();
+    for gi in 0..=toks.len() {
+        let gstart = if gi == 0 { 0 } else { toks[gi - 1].end };
+        let gend = if gi == toks.len() { src.len() } else { toks[gi].start };
+        let gap = &src[gstart..gend];
+        let next_is_comment = gi < toks.len() && toks[gi].is_comment();
+        let prev_is_line = gi > 0 && matches!(toks[gi - 1].k, K::Line | K::DocLine | K::Shebang);
+        if gap.is_empty() || gi == 0 {
+            out.push_str(gap);
+        } else if gap.contains('\n') {
+            match mode {
+                // trailing spaces before the newline
+                0 if rng.chance(1, 2) => {
+                    out.push_str(if prev_is_line { "" } else { "   " });
+                    out.push_str(gap);
+                }
+                // an extra blank line
+                1 if rng.chance(1, 3) => {
+                    let i = gap.find('\n').unwrap();
+                    out.push_str(&gap[..=i]);
+                    out.push('\n');
+                    out.push_str(&gap[i + 1..]);
+                }
+                // remove blank lines
+                2 => {
+                    let i = gap.rfind('\n').unwrap();
+                    let j = gap.find('\n').unwrap();
+                    out.push_str(&gap[..j]);
+                    out.push_str(&gap[i..]);
+                }
+                _ => out.push_str(gap),
+            }
+        } else {
+            match mode {
+                // wider spacing inside a line (keeps the first token's column of the line)
+                3 if rng.chance(1, 3) && !next_is_comment => {
+                    out.push_str(gap);
+                    out.push_str("  ");
+                }
+                _ => out.push_str(gap),
+            }
+        }
+        if gi < toks.len() {
+            out.push_str(toks[gi].text(src));
+        }
+    }
+    out
+}
+
+const WS_MODES: [&str; 4] = ["trailing-spaces", "extra-blank-lines", "no-blank-lines", "wide-spacing"];
+
+fn glu_files() -> Vec<std::path::PathBuf> {
+    let mut v = vec![];
+    for dir in ["/repo/std", "/repo/examples", "/repo/std/json", "/repo/std/regex", "/repo/std/http", "/repo/std/effect", "/repo/std/control", "/repo/std/data"] {
+        if let Ok(rd) = std::fs::read_dir(dir) {
+            for e in rd.flatten() {
+                let p = e.path();
+                if p.extension().map_or(false, |x| x == "glu") {
+                    v.push(p);
+                }
+            }
+        }
+    }
+    v.sort();
+    v.dedup();
+    v
+}
+
+fn new_vm() -> RootedThread {
+    // the default configuration (implicit prelude on), as `gluon fmt` uses it: the prelude's
+    // operators have fixities
+    gv::vm::new_vm()
+}
 
 fn main() {
     gv::quiet_panics();
@@ -15,8 +455,196 @@ fn main() {
         println!("rev {}", corr::rev(&s));
         return;
     }
+    if let Some(i) = args.extra.iter().position(|a| a == "--fmt") {
+        let s = std::fs::read_to_string(&args.extra[i + 1]).unwrap();
+        let vm = new_vm();
+        match oracle::format(&vm, &s) {
+            oracle::Fmt::Ok(o) => println!("OK\n{}", o),
+            oracle::Fmt::Refused(e) => println!("REFUSED {}", e),
+            oracle::Fmt::Panic(p) => println!("PANIC {}", p),
+        }
+        match oracle::check(&vm, &s) {
+            Verdict::Pass => println!("verdict: pass"),
+            Verdict::Skip(w) => println!("verdict: skip {}", w),
+            Verdict::Fail(f) => println!("verdict: FAIL {} — {}", f.kind, f.detail),
+        }
+        if args.extra.iter().any(|a| a == "--ast") {
+            println!("{:?}", oracle::ast(&s));
+        }
+        return;
+    }
+    if let Some(path) = &args.replay {
+        let v: serde_json::Value = serde_json::from_str(&std::fs::read_to_string(path).unwrap()).unwrap();
+        let case = v.get("case").unwrap_or(&v);
+        let case = case.get("replay").unwrap_or(case);
+        let src = case["src"].as_str().expect("replay has no `src`");
+        let vm = new_vm();
+        println!("input:\n{}", src);
+        match oracle::format(&vm, src) {
+            oracle::Fmt::Ok(o) => println!("formatted:\n{}", o),
+            oracle::Fmt::Refused(e) => println!("REFUSED {}", e),
+            oracle::Fmt::Panic(p) => println!("PANIC {}", p),
+        }
+        match oracle::check(&vm, src) {
+            Verdict::Pass => println!("verdict: pass"),
+            Verdict::Skip(w) => println!("verdict: skip {}", w),
+            Verdict::Fail(f) => println!("verdict: FAIL {} — {}", f.kind, f.detail),
+        }
+        return;
+    }
     let mut out = Out::new(&args.out);
     let mut rng = gv::rng::Rng::new(args.seed, 10);
     corr::run(&mut out, &mut rng, args.thorough());
+
+    let thorough = args.thorough();
+    let mut r = Runner { vm: new_vm(), out: &mut out, seen: Default::default() };
+    let mut rng = gv::rng::Rng::new(args.seed, 1010);
+
+    // corpus: minimised past failures run first
+    if let Ok(rd) = std::fs::read_dir("/verif/corpus/C10") {
+        let mut files: Vec<_> = rd.flatten().map(|e| e.path()).collect();
+        files.sort();
+        for p in files {
+            if let Ok(s) = std::fs::read_to_string(&p) {
+                if let Some(t) = lex::tokenize(&s) {
+                    r.run("corpus", &s, &t, &[], false);
+                }
+            }
+        }
+    }
+
+    // ---- generated programs ------------------------------------------------------------
+    let n_prog = if thorough { 1500 } else { 140 };
+    let mut tag = 0u64;
+    for pi in 0..n_prog {
+        let depth = 1 + (pi % 4) as u32;
+        let long = pi % 3 == 0;
+        let use_in = pi % 8 == 7;
+        let undefined_op = pi % 16 == 5;
+        let (p, used) = {
+            let mut g = gen::Gen::new(&mut rng, long, use_in, undefined_op);
+            g.expr(depth);
+            g.w_nl();
+            (g.s.clone(), g.used.clone())
+        };
+        let style = if use_in { "in-style" } else { "layout" };
+        let style = if undefined_op { "undefined-op" } else { style };
+        r.out.count(&format!("gen:style:{}", style));
+        for u in &used {
+            r.out.count(&format!("gen:construct:{}", u));
+        }
+        let ptoks = match lex::tokenize(&p) {
+            Some(t) => t,
+            None => {
+                r.out.count("oracle:skip:oracle-tokenizer");
+                continue;
+            }
+        };
+        let (inside, held) = r.run2(&format!("gen:{}", style), &p, &ptoks, &[], false);
+        if !inside {
+            r.out.count("gen:rejected-by-parser");
+            continue;
+        }
+        if !held {
+            // the program itself already violates the property: variants of it would only
+            // repeat that failure
+            r.out.count("gen:base-program-fails");
+            continue;
+        }
+        if pi < 8 {
+            r.out.sample(json!({"generated": p}));
+        }
+        // the canonical multi-line layout of the same program
+        let q = match oracle::format(&r.vm, &p) {
+            oracle::Fmt::Ok(q) => q,
+            _ => continue,
+        };
+        let qtoks = match lex::tokenize(&q) {
+            Some(t) => t,
+            None => continue,
+        };
+        if !r.run2("gen:formatted", &q, &qtoks, &[], false).1 {
+            r.out.count("gen:base-program-fails");
+            continue;
+        }
+        r.run("gen:formatted-crlf", &q, &qtoks, &[], true);
+        for mode in 0..4u8 {
+            let w = perturb_ws(&mut rng, &q, &qtoks, mode);
+            if let Some(wt) = lex::tokenize(&w) {
+                r.run(&format!("gen:{}", WS_MODES[mode as usize]), &w, &wt, &[], mode == 1 && pi % 2 == 0);
+            }
+        }
+        // one comment in every token gap of the multi-line layout, every style
+        for (base, toks, name) in [(&q, &qtoks, "multi"), (&p, &ptoks, "one-line")] {
+            let stride = if name == "one-line" { 3 } else { 1 };
+            for gi in (0..=toks.len()).filter(|g| (g + pi as usize) % stride == 0) {
+                for style in 0..5u8 {
+                    if !thorough && name == "one-line" && style != 2 && style != 0 {
+                        continue;
+                    }
+                    tag += 1;
+                    let ins = [Ins { gap: gi, style, text: comment_text(style, &format!("c{}", tag % 97)) }];
+                    let crlf = (gi + style as usize + pi as usize) % 5 == 0;
+                    r.run(&format!("gen:{}:one-comment", name), base, toks, &ins, crlf);
+                }
+            }
+        }
+        // several comments at once
+        let rounds = if thorough { 12 } else { 6 };
+        for k in 0..rounds {
+            let n = 2 + rng.below(5) as usize;
+            let mut ins = vec![];
+            for j in 0..n {
+                let gi = rng.below(qtoks.len() as u64 + 1) as usize;
+                let style = rng.below(5) as u8;
+                ins.push(Ins { gap: gi, style, text: comment_text(style, &format!("m{}x{}", k, j)) });
+            }
+            r.run("gen:multi:several-comments", &q, &qtoks, &ins, k % 3 == 0);
+        }
+    }
+
+    // ---- every .glu file of the repository ------------------------------------------------
+    let files = glu_files();
+    r.out.stats.insert("repo_glu_files".into(), (files.len() as u64).into());
+    for (fi, path) in files.iter().enumerate() {
+        let src = match std::fs::read_to_string(path) {
+            Ok(s) => s,
+            Err(_) => continue,
+        };
+        let name = path.strip_prefix("/repo").unwrap().display().to_string();
+        let origin = format!("file:{}", name);
+        let toks = match lex::tokenize(&src) {
+            Some(t) => t,
+            None => {
+                r.out.count("oracle:skip:oracle-tokenizer");
+                continue;
+            }
+        };
+        let (inside, held) = r.run2(&origin, &src, &toks, &[], false);
+        if !inside {
+            continue;
+        }
+        r.out.count("files:checked");
+        if !held {
+            continue;
+        }
+        if !thorough && fi % 3 != (args.seed % 3) as usize {
+            continue;
+        }
+        r.run(&format!("{}#crlf", origin), &src, &toks, &[], true);
+        for mode in 0..4u8 {
+            let w = perturb_ws(&mut rng, &src, &toks, mode);
+            if let Some(wt) = lex::tokenize(&w) {
+                r.run(&format!("{}#{}", origin, WS_MODES[mode as usize]), &w, &wt, &[], false);
+            }
+        }
+        let n_ins = if thorough { 40 } else { 6 };
+        for k in 0..n_ins {
+            let gi = rng.below(toks.len() as u64 + 1) as usize;
+            let style = rng.below(5) as u8;
+            let ins = [Ins { gap: gi, style, text: comment_text(style, &format!("f{}", k)) }];
+            r.run("file:one-comment", &src, &toks, &ins, false);
+        }
+    }
     out.finish();
 }
